@@ -20,6 +20,7 @@ RULE = (
     "Spec oracle (needs no model): no PANIC, no abort/stack overflow of the child process, heap growth within "
     "64 x bytes-received + 32 KiB (peak growth and largest single request, measured around the decode calls)."
     ' Family text-identity: a peer announces an identity that is valid UTF-8 with 2-, 3- and 4-byte characters at every byte offset (up to 255 bytes), then leaves (EOF / reset) while a second peer goes on; the harness installs a `log` logger that FORMATS every record the library emits, and its panic hook counts panics on every thread: a panic inside a task the library spawned (swallowed by the runtime) is reported on the op during which it happened.'
+    " Family bad-peer-then-traffic: one peer's stream turns malformed after its handshake (a command frame the decoder rejects, a PING, a truncated long command) while ANOTHER peer has five messages waiting — before, between or after them, both registration orders, six receiving socket types; a receiver that does nothing but call recv gets all five: the reaction is limited to the bad connection."
 )
 ASSUMPTIONS = [
     "allocator and stack limits are observed (counting allocator, 256 KiB stack thread), not modelled",
@@ -290,6 +291,44 @@ def peer_state_cases(tier):
                 sc.add("halves 1", "halves 2")
                 out.append(Case(f"peer-state-{t}-text-identity-{len(ident)}-{leave}#{n}", "world", list(sc.ops), ["socket-peer-state", "text-identity"]))
                 n += 1
+    # one peer's stream turns MALFORMED after its handshake while another peer has a BACKLOG of messages: the reaction is
+    # limited to dropping that connection — every message of the other peer is still delivered, to a receiver that does
+    # nothing but call recv (both registration orders; the bad bytes before, between and after the good peer's messages)
+    bads = {"bad-command": bytes([4, 1, 0]), "ping": zmtp.frame(b"\x04PING\x00\x00", command=True), "long-command-short": bytes([6, 0, 0, 0])}
+    for t, pt in (("PULL", "PUSH"), ("ROUTER", "DEALER"), ("DEALER", "ROUTER"), ("REP", "REQ"), ("SUB", "PUB"), ("XPUB", "SUB")):
+        goods = [([b"", b"m%d" % i] if t == "REP" else [b"\x01m%d" % i] if t == "XPUB" else [b"m%d" % i]) for i in range(5)]
+        for bname, bad in bads.items():
+            for order in ("bad-first", "good-first"):
+                for when in (0, 1, 5):
+                    sc = wg.Script()
+                    sc.sock(1, t)
+                    pb, pg = (1, 2) if order == "bad-first" else (2, 1)
+                    for p in sorted((pb, pg)):
+                        sc.attach(1, p, pt, b"bad" if p == pb else b"good")
+                    for m in goods[:when]:
+                        sc.reveal_msg(pg, m)
+                    sc.add(f"reveal {pb} {wg.hx(bad)}")
+                    if when == 1:
+                        f = sc.fut()
+                        sc.add(f"recv {f} 1", f"poll {f}", f"drop {f}")
+                    for m in goods[when:]:
+                        sc.reveal_msg(pg, m)
+                    futs = []
+                    for _ in range(len(goods) + 2):
+                        f = sc.fut()
+                        if t == "REP":
+                            # (REP answers each request before it takes the next)
+                            sc.add(f"recv {f} 1", f"poll {f}", f"drop {f}")
+                            g = sc.fut()
+                            sc.add(f"send {g} 1 {wg.mtok([b'r'])}", f"poll {g}", f"drop {g}")
+                        else:
+                            sc.add(f"recv {f} 1", f"poll {f}", f"drop {f}")
+                        futs.append(f)
+                    sc.add(f"halves {pb}", f"halves {pg}")
+                    c = Case(f"bad-peer-then-traffic-{t}-{bname}-{order}-{when}#{n}", "world", list(sc.ops), ["socket-peer-state", "bad-peer-then-traffic"])
+                    c.expect = ("bad-peer-then-traffic", futs, len(goods))
+                    out.append(c)
+                    n += 1
     # REP: requests with long / odd envelopes, then the reply that has to retrace them
     for env in ([], [b"r" * 255], [b"a", b"b" * 255, b"c" * 300], [b"x"] * 40):
         sc = wg.Script()
@@ -371,6 +410,13 @@ def oracle(case, impl_lines):
             return None
         if "socket-proxied-message" in case.tags:
             return None     # (no PANIC / ABORT / TIMEOUT above: the proxy forwarded the message or returned an error)
+        if "bad-peer-then-traffic" in case.tags:
+            _, futs, want = case.expect
+            got = [l for op, l in zip(case.ops, impl_lines[1:]) if op.startswith("poll") and l.startswith("ready ok M[")]
+            if len(got) != want:
+                return (f"one peer's stream turned malformed; the OTHER peer had {want} messages waiting and a receiver that only calls "
+                        f"recv got {len(got)} of them: other connections of the same socket must keep working")
+            return None
         if "text-identity" in case.tags:
             return None     # (no PANIC above, on any thread; the diff against the model settles what the socket does next)
         if "socket-peer-state" in case.tags:
